@@ -12,6 +12,8 @@ THEOREMS = ["Moclo.C16." + t for t in [
     "lettermap_exact", "lettermap_case", "code_table_is_model", "matcher_sound_complete", "search_leftmost",
     "search_none_iff", "circular_text_is_rotation", "linear_text_is_suffix", "search_one_turn",
     "group_is_matched_text", "search_priority", "matcher_finds_best"]]
+# reductions under which a failing case stays a case of this property (see shrink.py)
+SHRINK = {"strings": True, "ints": ["pos", "endpos"]}
 RULE = ("letter table: all 15 codes x 15 letters x 2 cases (exhaustive); search: random patterns (letters incl. "
         "ambiguity codes, flat groups, greedy/lazy runs of any class, several runs) x random targets as Seq "
         "linear / Seq non-linear / SeqRecord / CircularRecord with random pos/endpos, plus targets built to "
